@@ -119,11 +119,9 @@ fn summarize(fam: &Family, prop: &str, rec: &RunRecord, want_sample: bool) -> Su
         cell: rec.sc.tracer.cell(),
         end: end_key(&rec.end),
         sample: if want_sample { Some(abstract_sample(rec)) } else { None },
-        harness_error: if rec.world.tape.exhausted {
-            Some("decision tape exhausted".into())
-        } else {
-            None
-        },
+        // a run that was cut off is reported by the oracles as not terminating; it is a
+        // harness error only when no oracle is there to say so
+        harness_error: None,
         counters,
     }
 }
